@@ -222,6 +222,17 @@ def rule_identity(ctx, m, modules):
                             ctx.check(bad is None, 'R-ID', mod.path, q, fmt(sub),
                                       'identity comparison with a Python bool on a NumPy element (%s): numpy.bool_ is never `is` True/False, '
                                       'so the test has one fixed outcome' % bad, line=s.line)
+            # two data values compared by identity: equal symbols / numbers that are distinct objects compare unequal
+            localnames = set(f.args + f.kwonly) | {t.target[1] for t in walk_stmts(f.body) if t.k == 'assign' and t.target[0] == 'var'}
+            for s in walk_stmts(f.body):
+                for e in stmt_exprs(s):
+                    for sub in walk_expr(e):
+                        if sub[0] == 'bin' and sub[1] in ('is', 'isnot') and sub[2][0] == 'var' and sub[3][0] == 'var' \
+                                and sub[2][1] in localnames and sub[3][1] in localnames and sub[2][1] not in ('self', 'cls') and sub[3][1] not in ('self', 'cls'):
+                            n += 1
+                            ctx.violation('R-ID', mod.path, q, fmt(sub),
+                                          '`%s` decides whether two values are the same by object identity: equal values held in distinct objects (array elements, '
+                                          'non-interned strings, large ints) compare as different' % fmt(sub), line=s.line)
     ctx.count('identity comparisons', n)
     return n
 
@@ -255,6 +266,18 @@ def rule_optional_numpy(ctx, m, modules):
                 for t in walk_stmts(h[2]):
                     if t.k == 'assign' and t.target[0] == 'var':
                         bound_exc.add(t.target[1])
+            # a name bound to a function in both arms is bound to the same operation (np.min / min, np.argmin / util.argmin, ...)
+            KIND = {'argmin': 'argmin', 'argmax': 'argmax', 'min': 'min', 'amin': 'min', 'nanmin': 'min', 'max': 'max', 'amax': 'max', 'nanmax': 'max'}
+            val_try = {t.target[1]: t.value for t in walk_stmts(s.body) if t.k == 'assign' and t.target[0] == 'var'}
+            val_exc = {t.target[1]: t.value for h in s.handlers for t in walk_stmts(h[2]) if t.k == 'assign' and t.target[0] == 'var'}
+            for nm in sorted(set(val_try) & set(val_exc)):
+                k1 = KIND.get((dotted(val_try[nm]) or '').split('.')[-1])
+                k2 = KIND.get((dotted(val_exc[nm]) or '').split('.')[-1])
+                if k1 is None and k2 is None:
+                    continue
+                n += 1
+                ctx.check(k1 == k2, 'R-OPT', mod.path, '<module>', 'fallback of %s' % nm,
+                          '`%s` is %s with NumPy but %s without it: the NumPy-less mode computes a different quantity' % (nm, fmt(val_try[nm]), fmt(val_exc[nm])), line=s.line)
             for nm in sorted(bound_try):
                 n += 1
                 if nm in bound_exc:
